@@ -16,6 +16,17 @@ func init() {
 		// 2^64-k sat, and k is chosen so that (2^64-k)*1000 wraps onto a perfectly payable invoice of 1 000 000 sat
 		// for a 100 000 sat swap with a 1 % limit
 		all = append(all, amtOutScn(100000, 10000, -2305843009212793952, 500, 500, 5000000000))
+		// the claim invoice is off by less than a satoshi (both chains: the Liquid path has its own invoice check);
+		// premium = limit, so every msat above is above what was agreed
+		for _, chain := range []string{"btc", "lbtc"} {
+			for _, dm := range []int{1, 999, -1, 1000} {
+				sc := amtOutScn(1000000, 10000, 10000, 500, 500, 5000000000)
+				sc.steps[0] = strings.Replace(sc.steps[0], " btc ", " "+chain+" ", 1)
+				sc.steps[2] = fmt.Sprintf("txmsg dmsat=%d", dm)
+				sc.tag += fmt.Sprintf(" %s dmsat=%d", chain, dm)
+				all = append(all, sc)
+			}
+		}
 		for i := 0; i < n; i++ {
 			all = append(all, genAmounts(r))
 		}
